@@ -121,6 +121,11 @@ func init() {
 			Old:    "\t\t\t\"spec\": map[string]any{\n\t\t\t\t\"paused\": desiredObjectSetPhase.IsPaused(),\n\t\t\t},\n",
 			New:    "\t\t\t\"spec\": map[string]any{\n\t\t\t\t\"paused\": desiredObjectSetPhase.IsPaused(),\n\t\t\t\t\"objects\": desiredObjectSetPhase.ClientObject(),\n\t\t\t},\n",
 			Expect: []string{"C19.R4@(*internal/controllers/objectsets.objectSetRemotePhaseReconciler).Reconcile"}},
+		// a panic *added* in an extracted helper of a triaged function is counted with that function
+		Mutant{Prop: "C19", Name: "r4-new-panic-in-helper-of-triaged-function", File: remote,
+			Old:    "\tobjectSetObj := objectSet.ClientObject()\n\n\tdesiredObjectSetPhase := r.newObjectSetPhase(r.scheme)\n",
+			New:    "\tobjectSetObj := objectSet.ClientObject()\n\tif len(phase.Objects) == 0 {\n\t\tpanic(\"phase without objects\")\n\t}\n\n\tdesiredObjectSetPhase := r.newObjectSetPhase(r.scheme)\n",
+			Expect: []string{"C19.R4@(*internal/controllers/objectsets.objectSetRemotePhaseReconciler)"}},
 		Mutant{Prop: "C19", Name: "r4-benign-validation-locals-renamed", File: objs, Benign: true,
 			Old: "\t\tif _, cmErr := parseConditionMapAnnotation(&obj); cmErr != nil {\n\t\t\terr = packagetypes.ViolationError{\n\t\t\t\tReason:  packagetypes.ViolationReasonInvalidConditionMapAnnotation,\n\t\t\t\tDetails: cmErr.Error(),",
 			New: "\t\t_, mappingErr := parseConditionMapAnnotation(&obj)\n\t\tif nil != mappingErr {\n\t\t\terr = packagetypes.ViolationError{\n\t\t\t\tReason:  packagetypes.ViolationReasonInvalidConditionMapAnnotation,\n\t\t\t\tDetails: mappingErr.Error(),"},
